@@ -254,10 +254,11 @@ def destAddr (e : Env) (a : Account) : Option String := if a.type = tModule then
     error, blocked or malformed destination): `main balance × 10^18 − recorded remains of that
     state` is unchanged in every denomination — a failed payout keeps the whole amount recorded, a
     successful one takes from the main account exactly the integer part that leaves the record.
-    Hypothesis: the destination is not the main account itself (rejected by validation, D21). -/
+    Hypothesis: a destination that is paid by a bank transfer (not an INTERNAL account) is not the
+    main account itself (rejected by validation, D21). -/
 theorem payoutOne_keeps_books (e : Env) (w w' : Distr.World) (s s' : DState) (d : String)
     (h : payoutOne e w s = .ok (s', w'))
-    (hne : ∀ a, s.account = some a → s.burn = false → destAddr e a ≠ some e.mainAddr) :
+    (hne : ∀ a, s.account = some a → s.burn = false → a.type ≠ tInternal → destAddr e a ≠ some e.mainAddr) :
     amountOf (w'.bank.balance e.mainAddr) d * P - amountOf s'.remains d
       = amountOf (w.bank.balance e.mainAddr) d * P - amountOf s.remains d := by
   have hsplit := truncateDecimal_split s.remains d
@@ -266,7 +267,11 @@ theorem payoutOne_keeps_books (e : Env) (w w' : Distr.World) (s s' : DState) (d 
   · cases h
   · rename_i a ha
     split at h
-    · simp only [] at h
+    · rename_i hcond
+      have hni : a.type ≠ tInternal := by
+        simp only [Bool.and_eq_true, decide_eq_true_eq] at hcond
+        exact hcond.1
+      simp only [] at h
       split at h
       · -- burn
         split at h
@@ -282,7 +287,7 @@ theorem payoutOne_keeps_books (e : Env) (w w' : Distr.World) (s s' : DState) (d 
               rw [this, Int.sub_mul]; omega
       · rename_i hnb
         have hnb' : s.burn = false := by simpa using hnb
-        have hd := hne a ha hnb'
+        have hd := hne a ha hnb' hni
         split at h
         · rename_i hmod
           split at h
@@ -327,7 +332,7 @@ theorem remSumF_append (d : String) (a b : List DState) : remSumF d (a ++ b) = r
     denomination — nothing is lost and nothing is double counted by the payouts -/
 theorem payoutLoop_keeps_books (e : Env) (d : String) : ∀ (l : List DState) (w w' : Distr.World) (st st' : List DState),
     payoutLoop e l w st = .ok (w', st') →
-    (∀ s ∈ l, ∀ a, s.account = some a → s.burn = false → destAddr e a ≠ some e.mainAddr) →
+    (∀ s ∈ l, ∀ a, s.account = some a → s.burn = false → a.type ≠ tInternal → destAddr e a ≠ some e.mainAddr) →
     amountOf (w'.bank.balance e.mainAddr) d * P - remSumF d st'
       = amountOf (w.bank.balance e.mainAddr) d * P - remSumF d st - remSumF d l
   | [], w, w', st, st', h, _ => by
